@@ -26,6 +26,7 @@ THEOREMS = [
     "accepted_has_own_crc", "cktype_none_refused", "accepted_sealed", "verify_detects_any_cktype",
     "cktype_overwrite_regression", "trailer_not_a_mac", "index_open_detects", "index_count_protected",
     "index_count_unique", "index_cktype_none_refused", "index_count_regression", "index_cktype_overwrite_regression",
+    "openBlock_false_of_true", "getBlock_verifies_at_that_read", "getBlock_step", "every_returned_block_was_verified",
     "compaction_never_launders", "cache_first_compaction_launders", "laundered_block_verifies",
 ]
 
@@ -468,6 +469,72 @@ def compact_decide(ck, cases, manswers, cov, wants=None):
     return mvi, ivo
 
 
+def reread_decide(ck, out, rc, cov):
+    """c18 reread: the file is altered while the database is open, between two reads.  Oracle: every
+    read after the alteration is Err or returns exactly the original rows (a block still cached);
+    after a reopen it is Err.  Prediction of the model (`getBlock`: every load from the file is
+    verified at THAT read): capacity 0 -> Err, capacity 1024 -> the cached original; in between either."""
+    mvi = {"compared": 0, "disagree": 0}
+    ivo = {"compared": 0, "disagree": 0, "known": 0}
+    dist = Counter()
+    cases, wants = [], {}
+    for line in out.split("\n"):
+        try:
+            if line.startswith("{\"reread_want\""):
+                w = json.loads(line)
+                wants[bool(w.get("keyed"))] = re.findall(r"\(([^)]*)\)", w["reread_want"])
+            elif line.startswith("{\"file\""):
+                cases.append(json.loads(line))
+        except ValueError:
+            pass
+    if rc != 0 or not cases:
+        ck.report("run:reread", "re-read run failed (rc=%s): %s" % (rc, out[-400:]), replay={"tail": out[-2000:]}, found_input=False)
+    for c in cases:
+        if not c["changed"]:
+            continue
+        res = c["res"]
+        r = {}
+        for k, v in re.findall(r"(open|reopen|q0|q1|q2|u|r1):(DIFF:(?:\([^)]*\) ?)*|\S+)", res):
+            r[k] = "DIFF" if v.startswith("DIFF") else v
+        pk = c["patch"].split(":")[0]
+        dist["cache %d/%s -> q1:%s q2:%s r1:%s" % (c["cache"], pk, r.get("q1"), r.get("q2"), r.get("r1"))] += 1
+        replay = {"file": c["file"], "table": "t (a int primary key, b varchar)" if c.get("keyed") else "t (a int, b varchar)", "block_cache_capacity": c["cache"],
+                  "patch": c["patch"], "block": c["block"], "blocks_in_file": c["nblocks"], "observed": res[:1500],
+                  "how": "c18 reread: default_for_cli options, target_block_size 64, cache_size as given; open; SELECT a, b FROM t ORDER BY a (q0: all blocks loaded and verified); apply the patch to the .col file IN PLACE while the database is open; SELECT again twice (q1, q2); SELECT k FROM u; reopen; SELECT (r1). Oracle: q1/q2 Err or the original 40 rows, r1 Err"}
+        ivo["compared"] += 1
+        viol = []
+        if r.get("q0") != "same":
+            viol.append(("reread:first-read", "the pristine table does not read back before the alteration: q0 = %s" % r.get("q0")))
+        for q in ("q1", "q2", "r1"):
+            if r.get(q) == "DIFF":
+                viol.append(("reread:accepted-altered/cache-%s" % ("0" if c["cache"] == 0 else "n"),
+                             "%s returns Ok with ALTERED rows: the block was loaded from the file again after the alteration (cache capacity %d) and returned without passing its checksum at that read" % (q, c["cache"])))
+            elif r.get(q) not in ("same",) and not str(r.get(q, "")).startswith("err") and r.get(q) != "panic":
+                viol.append(("reread:outcome", "%s: unexpected outcome %s" % (q, r.get(q))))
+        if r.get("r1") == "same":
+            viol.append(("reread:reopen-accepts", "after a reopen the altered file reads back Ok with the original rows (%s)" % c["patch"]))
+        if r.get("u") != "same":
+            viol.append(("reread:other-table", "untouched table u = %s" % r.get("u")))
+        if viol:
+            ivo["disagree"] += 1
+        for sig, what in viol:
+            ck.report(sig, "re-read, %s %s: %s" % (c["file"], c["patch"], what), replay=replay)
+        # model prediction
+        if c["cache"] in (0, 1024):
+            mvi["compared"] += 1
+            if c["cache"] == 0:
+                # (a hit on an entry moka has not evicted yet would be `same`: tolerated, counted in the distribution)
+                ok = all(str(r.get(q, "")).startswith("err") or r.get(q) == "same" for q in ("q1", "q2")) and str(r.get("r1", "")).startswith("err")
+            else:
+                ok = r.get("q1") == "same" and r.get("q2") == "same" and str(r.get("r1", "")).startswith("err")
+            if not ok:
+                mvi["disagree"] += 1
+                ck.report("corr:reread/cache-%d/%s" % (c["cache"], pk), "model prediction (capacity 0: every read loads and verifies -> Err; capacity 1024: cache hit -> original rows; reopen -> Err) and outcome disagree: %s" % res[:300],
+                          replay=replay, found_input=any(r.get(q) == "DIFF" for q in ("q1", "q2", "r1")))
+    cov.setdefault("distribution", {})["reread_cases"] = dict(sorted(dist.items()))
+    return mvi, ivo
+
+
 def run(ck):
     n_cols = 8 if ck.quick() else 120
     n_disk = 1000 if ck.quick() else 20000
@@ -639,17 +706,22 @@ def run(ck):
     rcm2, mout2 = vlib.sh([vlib.lean_exe("drv_c18")], stdin="\n".join(creq) + "\n")
     cmans = [l.strip() for l in mout2.split("\n")][:len(ccases)]
     cmvi, civo = compact_decide(ck, ccases, cmans, cov, cwants)
+    # ---- corruption BETWEEN reads of an open database (read, alter the file in place, read again)
+    n_rr = 180 if ck.quick() else 1500
+    ck.log("re-read level: %d cases (open with block-cache capacity 0 / 1 / 8 / 1024, read, alter one block in place, read twice, reopen)" % n_rr)
+    rc5, rout = vlib.sh([vlib.harness_bin("c18"), "reread", ck.work, str(n_rr)], timeout=3000)
+    rmvi, rivo = reread_decide(ck, rout, rc5, cov)
     for name, st in bad.items():
         ck.report("thm:" + name, "theorem %s is not discharged (%s)" % (name, st.get("status")), replay={"theorem": name, "status": st}, found_input=False)
     cov.setdefault("distribution", {}).update({"column_level_requests": dict(kinds), "column_level_outcomes": dict(sorted(outcomes.items())),
                                                 "disk_files": {n: l["len"] for n, l in layouts.items() if isinstance(l, dict)}})
     cov.update({
-        "evaluations": len(reqs) + len(cases) + len(ccases),
+        "evaluations": len(reqs) + len(cases) + len(ccases) + rivo["compared"],
         "distinct_nontrivial": len(distinct) + len({(c["file"], c["patch"]) for c in cases}),
         "rule": "distinct (file bytes, patch, read sequence) with a patch that changes at least one byte; on-disk: distinct (file, patch)",
         "samples": [r[:200] for r in reqs[len(corpus):len(corpus) + 2]] + [json.dumps(c)[:300] for c in cases[:3]],
-        "model_vs_impl": {"compared": mvi["compared"] + dmvi["compared"] + cmvi["compared"], "disagree": mvi["disagree"] + dmvi["disagree"] + cmvi["disagree"], "column_level": mvi, "disk_level": dmvi, "compaction_level": cmvi},
-        "impl_vs_oracle": {"compared": ivo["compared"] + divo["compared"] + civo["compared"], "disagree": ivo["disagree"] + divo["disagree"] + civo["disagree"], "known": ivo["known"] + divo["known"] + civo["known"], "column_level": ivo, "disk_level": divo, "compaction_level": civo},
+        "model_vs_impl": {"compared": mvi["compared"] + dmvi["compared"] + cmvi["compared"] + rmvi["compared"], "disagree": mvi["disagree"] + dmvi["disagree"] + cmvi["disagree"] + rmvi["disagree"], "column_level": mvi, "disk_level": dmvi, "compaction_level": cmvi, "reread_level": rmvi},
+        "impl_vs_oracle": {"compared": ivo["compared"] + divo["compared"] + civo["compared"] + rivo["compared"], "disagree": ivo["disagree"] + divo["disagree"] + civo["disagree"] + rivo["disagree"], "known": ivo["known"] + divo["known"] + civo["known"] + rivo["known"], "column_level": ivo, "disk_level": divo, "compaction_level": civo, "reread_level": rivo},
         "model_vs_oracle": mvo,
     })
     return ck.finish(level="proof", checker_cmd="translator/gen_consts.py; lake build RlModel.Thm.C18 drv_c18; #print axioms audit",
